@@ -95,6 +95,9 @@ AltAlphabet(t) ==
      {FS(f, <<m>>) : f \in {"Decset", "Decrst"}, m \in {1047, 1049}}
   \cup {F2("Cup", a, 1) : a \in 1..t.rows} \cup {F2("Cup", 1, t.cols)}
   \cup {F1("Print", 122), F0("Lf"), F0("Decsc"), F0("Decrc"), F0("Decstr"), F1("Ed", 2)}
+AltLeanAlphabet(t) ==
+     {FS(f, <<m>>) : f \in {"Decset", "Decrst"}, m \in {1047, 1049}}
+  \cup {F2("Cup", a, 1) : a \in 1..t.rows} \cup {F1("Print", 122), F0("Lf")}
 AltSizes == {<<2, 2>>, <<3, 2>>}
 AltFills == {<<>>, Labelled(4, 2), <<65, 65, 65, 65, 65>>}
 AltResizes(t) == {<<c, r>> \in {<<2, 2>>, <<2, 4>>, <<3, 3>>, <<1, 2>>, <<3, 1>>} : <<c, r>> # <<t.cols, t.rows>>}
